@@ -38,7 +38,15 @@ def make_ds(n, chain, via=None):
   import fedjax
   from fedjax.core import client_datasets as cds
   fns = []
-  if chain:
+  if chain == 'inplace':
+    # a preprocessing fn that works in place on the arrays it is handed (the batch is the caller's to modify)
+    def _ip(x):
+      x['z'] = x['i'] * 2 + 1
+      x['f'] *= 1          # in-place no-op on the array object itself ...
+      x['f'] += 0
+      return x
+    fns = [_ip]
+  elif chain:
     fns = [lambda x: {**x, 'z': x['i'] * 2 + 1}]
   if via:
     # the selected rows carry i = 0..n-1 in selection order, every other row of the larger dataset carries -1
@@ -255,6 +263,31 @@ def seeded(case):
   return info
 
 
+def batches_are_private(case):
+  """The batches handed out belong to the consumer: overwriting them in place (normalising, zeroing) must not change the
+  dataset, later batches, a second pass or another view - with and without shuffling, wrapping and non-wrapping batches."""
+  n, b, ep, skip = case['N'], case['B'], case['epochs'], case['skip']
+  ds, raw = make_ds(n, False)
+  snap = {k: v.copy() for k, v in raw.items()}
+  kw = dict(batch_size=b, num_epochs=ep, seed=case.get('seed', 4), skip_shuffle=skip)
+  clean = [np.asarray(x['i']).tolist() for x in ds.shuffle_repeat_batch(**kw)]
+  view = ds.shuffle_repeat_batch(**kw)
+  seen = []
+  for bt in view:
+    seen.append(np.asarray(bt['i']).tolist())
+    for k in bt:
+      arr = bt[k]
+      if isinstance(arr, np.ndarray) and arr.flags.writeable:
+        arr[...] = -7            # the consumer reuses the batch buffers
+  require(seen == clean, 'overwriting the batches already consumed changed the batches that followed', clean, seen, case=case)
+  for k in snap:
+    require(np.array_equal(np.asarray(ds.raw_examples[k]), snap[k]), 'overwriting a batch in place changed the dataset (feature %r): '
+            'batches alias the dataset\'s arrays' % k, snap[k].tolist(), np.asarray(ds.raw_examples[k]).tolist(), case=case)
+  again = [np.asarray(x['i']).tolist() for x in view]
+  require(again == clean, 'a second pass over the view differs after the first pass\'s batches were overwritten', clean, again, case=case)
+  return {'evals': 1, 'nontrivial': True, 'outcome': [n, b, ep, skip]}
+
+
 def interleave(case):
   """Seeded views are independent streams: iterating two of them in lock-step (or nesting one inside the other, or
   drawing from numpy's global generator in between) must give each exactly its stand-alone batches. No seam is used."""
@@ -377,7 +410,7 @@ def other_process(case):
   return {'evals': evals, 'nontrivial': True, 'outcome': [len(case['configs']), case['hashseeds']]}
 
 
-SUBS = {'counts': counts, 'other_process': other_process, 'interleave': interleave, 'scripted': scripted, 'seeded': seeded, 'routes': routes_case}
+SUBS = {'batches_are_private': batches_are_private, 'counts': counts, 'other_process': other_process, 'interleave': interleave, 'scripted': scripted, 'seeded': seeded, 'routes': routes_case}
 
 
 def configs(ns, bs, epochs, steps):
@@ -450,6 +483,8 @@ def plan(ctx):
         se.append({'N': via_len(via), 'via': via, 'B': b, 'epochs': ep, 'steps': st, 'drop': drop, 'skip': skip,
                    'seeds': seeds[:3], 'chain': b % 2 == 1})
   ctx.pmap('seeded', se, chunk=64)
+  ctx.run('batches_are_private', [{'N': n, 'B': b, 'epochs': ep, 'skip': sk} for n in (1, 4, 5, 8) for b in (1, 2, 3, 8, 11)
+                                  for ep in (1, 3) for sk in (False, True)])
   ctx.pmap('counts', [{'N_lo': lo, 'N_hi': lo + 10, 'Bs': [1, 2, 3, 5, 7, 9, 16], 'epochs': [1, 2, 3, 5, 9]}
                       for lo in range(1, 121 if th else 101, 10)], chunk=1)
   cfgs = [[n, b, ep, st, False, seed, via] for n, via in ((5, None), (8, None), (3, 'step2'), (3, 'rev2'))
